@@ -176,7 +176,10 @@ def gen_request(r):
     if "header-right" in keymode or keymode == "both-right":
         env["HTTP_X_PYRO_GATEWAY_KEY"] = KEY
     elif "header-wrong" in keymode:
-        env["HTTP_X_PYRO_GATEWAY_KEY"] = r.choice(["wrong", KEY + "x", KEY[:-1], KEY.upper()])
+        # (a WSGI server hands header bytes over as iso-8859-1 text: the look-alikes are the right key with bytes around or inside it that are
+        # not valid UTF-8, with invisible or ignorable characters, in another normal form or with white space)
+        env["HTTP_X_PYRO_GATEWAY_KEY"] = r.choice(["wrong", KEY + "x", KEY[:-1], KEY.upper(), KEY + "\xff", "\xfe" + KEY, KEY[:3] + "\xc3" + KEY[3:], KEY + "\xe2\x82", "\xff\xfe",
+                                                   KEY + " ", " " + KEY, KEY + "\x00", KEY + "\u200b".encode("utf-8").decode("iso-8859-1"), KEY + "\r\n", "\t" + KEY])
     if keymode in ("param-right", "both-right", "header-wrong-param-right"):
         params.insert(r.randrange(len(params) + 1), ("$key", KEY))
     elif keymode in ("param-wrong", "header-right-param-wrong"):
